@@ -56,6 +56,7 @@ type FuncContract struct {
 	hasMods   bool
 	loopInv   map[int][]specLine
 	loopMod   map[int][]string
+	loopComplete map[int]bool
 	at        map[string][]specLine // site label -> assertions
 	atAssume  map[string][]specLine
 	atBefore  map[string][]specLine
@@ -290,7 +291,7 @@ func (a *Annotations) parseFile(path, pkg string) error {
 }
 
 func newFuncContract(pkg, key, file string, line int) *FuncContract {
-	return &FuncContract{pkg: pkg, key: key, nullable: map[string]bool{}, loopInv: map[int][]specLine{}, loopMod: map[int][]string{}, at: map[string][]specLine{}, atAssume: map[string][]specLine{}, atBefore: map[string][]specLine{}, takes: map[string]bool{}, condTakes: map[string]bool{}, borrows: map[string]bool{}, file: file, line: line}
+	return &FuncContract{pkg: pkg, key: key, nullable: map[string]bool{}, loopInv: map[int][]specLine{}, loopMod: map[int][]string{}, loopComplete: map[int]bool{}, at: map[string][]specLine{}, atAssume: map[string][]specLine{}, atBefore: map[string][]specLine{}, takes: map[string]bool{}, condTakes: map[string]bool{}, borrows: map[string]bool{}, file: file, line: line}
 }
 
 func splitWord(s string) (string, string) {
@@ -404,6 +405,8 @@ func (a *Annotations) funcClause(cf *FuncContract, word, rest string, sl specLin
 			cf.loopInv[n] = append(cf.loopInv[n], sl)
 		case "modifies":
 			cf.loopMod[n] = append(cf.loopMod[n], strings.Fields(r3)...)
+		case "complete":
+			cf.loopComplete[n] = true
 		default:
 			return fmt.Errorf("loop clause %q", kw)
 		}
